@@ -12,3 +12,4 @@ open IrVerif.Path
 #print axioms C10_call_open_safe
 #print axioms C10_call_result
 #print axioms C10_session_safe
+#print axioms C10_load_all_positions
